@@ -141,7 +141,7 @@ MANIFEST = dict(
     note="Trusted: Lean kernel, extractor, harness, the JSON/URL/SDP decoders and websocket/http libraries; backend answers "
          "are not client input. Defects found and repaired: dialout response handler nil dereference (6c2ef8c), "
          "process death on a `type` that is not valid UTF-8 (6585c31), leave vs. transient-update deadlock (001c654, by C14), "
-         "raw members that are not JSON (fe02bf7), nil dereference in processRegister for a connection that is not a *Client.",
+         "raw members that are not JSON (fe02bf7), nil dereference in processRegister for a connection that is not a *Client (0d853cf).",
     technique="Lean 4 proof (case analysis over the dispatch of a total model with explicit crash outcomes, table lemmas by "
               "decide) + regenerated validation/dereference/assertion tables + differential correspondence against the real hub",
 )
